@@ -753,6 +753,7 @@ func (c *Client) Sync() am.Time {
 			verifPoint(c, "cli:synced")
 			break
 		}
+		verifPoint(c, "cli:syncdropped")
 	}
 
 	return c.NetMach.machTime
